@@ -250,6 +250,27 @@ fn inner(world_no: u64, t: &mut Tape, rep: &mut WorldReport) {
         }
         all_inputs.insert(qname.clone(), set);
     }
+    // a caller may also hand in a UTxO set under the name of an input block (an argument map is
+    // open-ended); it is not a declared parameter and must not compete with the inputs stage
+    if !all_inputs.is_empty() && t.chance(1, 8) {
+        let names: Vec<String> = all_inputs.keys().cloned().collect();
+        let name = names[t.index(names.len())].clone();
+        let mut v = Value::new();
+        v.insert(None, 77_000_000);
+        let other = SimUtxo {
+            address: addr_for(1, false, false),
+            value: v,
+            datum: None,
+            script: None,
+        }
+        .to_utxo(&(vec![0x7E; 32], 5));
+        let mut set = HashSet::new();
+        set.insert(other);
+        let i = t.index(arg_parts.len());
+        args.insert(name.clone(), ArgValue::UtxoSet(set.clone()));
+        arg_parts[i].insert(name, ArgValue::UtxoSet(set));
+        rep.fire("utxo-set-argument-named-like-an-input");
+    }
     // inputs may also be applied in two steps (one block at a time)
     let split_inputs = all_inputs.len() > 1 && t.chance(1, 3);
     let input_parts: Vec<BTreeMap<String, HashSet<Utxo>>> = if split_inputs {
